@@ -318,7 +318,13 @@ func containsInt(xs []int, k int) bool {
 // noise adds one adversarial or unrelated step.
 func (g *genState) noise(m int64) {
 	set := g.curSet()
-	switch g.r.Pick(5, 3, 3, 4, 1, 1, 1) {
+	switch g.r.Pick(5, 3, 3, 4, 1, 1, 1, 2) {
+	case 7:
+		// cross-message replay: a guardian's genuine observation of the sibling message (same
+		// identifier, other body) is processed, then its signature is offered for this message
+		k := g.member(set)
+		g.add("obs", k, m^(1<<13), 0, 0, "")
+		g.add("obs", k, m, 5, 0, "")
 	case 0: // byzantine variant of an observation for this message
 		g.add("obs", g.member(set), m, g.byzVariant(), int64(g.r.Intn(64)), "")
 	case 1: // valid signature by a non-member
